@@ -261,23 +261,30 @@ WRAPPER_REF = (
     "    return wrapper\n")
 
 
+def rule_wrapper(prog, rep, R, guards=False):
+    """The wrapper installed around every bijection method: method(unwrap(bijection), checked x, checked condition),
+    result returned unchanged."""
+    m, fn = prog.func(BJ + "_unwrap_check_and_cast")
+    site = f"{m.relpath}:{fn.lineno}"
+    noin = {"flowjax.utils.arraylike_to_array"}
+    M = ("sym", "METHOD")
+    gi = Interp(prog, no_inline=noin)
+    got = gi.reify(gi.eval_function(BJ + "_unwrap_check_and_cast", [M]))
+    wi = Interp(prog, no_inline=noin)
+    fnref = ast.parse(WRAPPER_REF).body[0]
+    want = wi.reify(wi.apply_def(fnref, Env(prelude(prog)), (m, None, None), [M], {}))
+    compare(rep, R, site, "_unwrap_check_and_cast:forwarded-values", got, want, "wrapper")
+    if guards:
+        compare_guards(rep, R, site, "_unwrap_check_and_cast", gi, wi, "argument check")
+
+
 def rule_exact(prog, rep):
     rep.rule("C13.exact", "the installed wrapper compares whole shape tuples exactly (x.shape != bijection.shape; "
                           "condition.shape != bijection.cond_shape when cond_shape is not None; missing condition "
                           "raises), every failing branch raises, and the values forwarded to the method are the "
                           "unwrapped bijection and the checked / cast arguments; the distribution vectoriser checks "
                           "arg.shape != in_shape per core argument", minimum=6)
-    m, fn = prog.func(BJ + "_unwrap_check_and_cast")
-    site = f"{m.relpath}:{fn.lineno}"
-    noin = {"flowjax.utils.arraylike_to_array"}
-    M = ("sym", "METHOD")
-    gi = Interp(prog, no_inline=noin)
-    got = gi.reify(gi.eval_function(BJ + "_unwrap_check_and_cast", [M])) if True else None
-    wi = Interp(prog, no_inline=noin)
-    fnref = ast.parse(WRAPPER_REF).body[0]
-    want = wi.reify(wi.apply_def(fnref, Env(prelude(prog)), (m, None, None), [M], {}))
-    compare(rep, "C13.exact", site, "_unwrap_check_and_cast:forwarded-values", got, want, "wrapper")
-    compare_guards(rep, "C13.exact", site, "_unwrap_check_and_cast", gi, wi, "argument check")
+    rule_wrapper(prog, rep, "C13.exact", guards=True)
     # distribution vectoriser (per-element check) - same comparison as C06.lift incl. guards
     from .c06 import VECTORIZE_REF
     c = prog.cls(DIST)
